@@ -3,7 +3,7 @@ import ast
 import functools
 from fractions import Fraction
 
-from .. import coqrun, py2gallina as pg
+from .. import coqrun, py2gallina as pg, symex as X
 from ..core import Corr, Untranslatable, Violation
 
 ID = "C09"
@@ -23,61 +23,71 @@ RULE = "RSS-estimate and engine renormalisation on coil vectors whose root-sum-o
 NORM = "torch.sqrt((sensitivity_map ** 2).sum(self.%s).sum(self.%s))"
 
 
+S = lambda n: ("sym", n)
+TMOD = S("T")
+
+
+def _meth(o, m, *args):
+    return ("call", ("attr", o, m), tuple(args), ())
+
+
+def _norm_of(x, coil, cplx):
+    """sqrt of the squares summed over the complex and the coil axis, broadcast back (both spellings of sqrt)."""
+    ss = _meth(_meth(("bin", "**", x, X.const(2)), "sum", cplx), "sum", coil)
+    return [_meth(_meth(r, "unsqueeze", coil), "unsqueeze", cplx) for r in (("call", ("attr", S("torch"), "sqrt"), (ss,), ()), _meth(ss, "sqrt"))]
+
+
+def _normalised(v, coil, cplx, what, path):
+    """v is safe_divide(x, norm(x)); returns x."""
+    if not (v[0] == "call" and v[1] in (("attr", TMOD, "safe_divide"), S("safe_divide")) and len(v[2]) == 2 and not v[3]):
+        raise Untranslatable("%s: the result is not a safe_divide: %s" % (what, X.show(v)[:100]), None, path)
+    x, n = v[2]
+    if n not in _norm_of(x, coil, cplx):
+        raise Untranslatable("%s: the divisor is not the root-sum-of-squares over coils of what is divided: %s" % (what, X.show(n)[:140]), None, path)
+    return x
+
+
 def generate(ctx):
+    """Every way out of the two map computations is `normalise` of Model/C09.v applied to something (symbolic execution,
+    vlib/symex.py: named intermediates, helpers and the order of independent statements do not matter)."""
     path = ctx.src("direct/data/mri_transforms.py")
     tree, _ = pg.parse_file(path)
-    fn = pg.find_def(tree, "EstimateSensitivityMapModule.forward", path)
-    body = pg.strip_doc(fn.body)
-    srcs = [ast.unparse(s) for s in body]
-    # RSS branch
-    first = body[0]
-    rss = None
-    node = first
-    while isinstance(node, ast.If):
-        if ast.unparse(node.test) == "self.type_of_map == SensitivityMapType.RSS_ESTIMATE":
-            rss = [ast.unparse(x) for x in node.body]
-        node = node.orelse[0] if len(node.orelse) == 1 and isinstance(node.orelse[0], ast.If) else None
-    want = [
-        "acs_image = self.estimate_acs_image(sample)",
-        "acs_image_rss = T.root_sum_of_squares(acs_image, dim=self.coil_dim)",
-        "acs_image_rss = acs_image_rss.unsqueeze(self.coil_dim).unsqueeze(self.complex_dim)",
-        "sensitivity_map = T.safe_divide(acs_image, acs_image_rss)",
-    ]
-    if rss != want:
-        raise Untranslatable("EstimateSensitivityMapModule.forward: RSS-estimate branch outside subset: %s" % rss, fn.lineno, path)
-    tail = srcs[1:]
-    want_tail = [
-        "sensitivity_map_norm = " + NORM % ("complex_dim", "coil_dim"),
-        "sensitivity_map_norm = sensitivity_map_norm.unsqueeze(self.coil_dim).unsqueeze(self.complex_dim)",
-        "sample['sensitivity_map'] = T.safe_divide(sensitivity_map, sensitivity_map_norm)",
-        "return sample",
-    ]
-    if tail != want_tail:
-        raise Untranslatable("EstimateSensitivityMapModule.forward: renormalisation tail outside subset: %s" % tail, fn.lineno, path)
-    # unit map: ones in the real part
-    unit = [ast.unparse(x) for x in first.body] if ast.unparse(first.test) == "self.type_of_map == SensitivityMapType.UNIT" else None
-    if unit is None or "sensitivity_map[..., 0] = 1.0" not in unit or "sensitivity_map = torch.zeros(kspace.shape).float()" not in unit:
-        raise Untranslatable("EstimateSensitivityMapModule.forward: unit branch outside subset", fn.lineno, path)
+    me = S("self")
+    coil, cplx = ("attr", me, "coil_dim"), ("attr", me, "complex_dim")
+    t, _n = X.run_function(tree, path, "EstimateSensitivityMapModule.forward", opaque={"estimate_acs_image"})
+    t = X.lift_ife(X.prune_raises(X.drop_do(t)))
+    seen = set()
+    for conds, lf in X.leaves(t):
+        v = lf[1]
+        if not (v[0] == "set" and v[1] == S("sample") and v[2] == X.const("sensitivity_map")):
+            raise Untranslatable("EstimateSensitivityMapModule.forward: does not return the sample with 'sensitivity_map' set: %s" % X.show(v)[:80], None, path)
+        x = _normalised(v[3], coil, cplx, "EstimateSensitivityMapModule.forward", path)
+        kind = [c[3] for c, pol in conds if pol and c[0] == "cmp" and c[1] == "==" and c[2] == ("attr", me, "type_of_map")]
+        kind = kind[-1][2] if kind and kind[-1][0] == "attr" else "other"
+        if kind == "RSS_ESTIMATE":
+            # the estimate itself: the ACS image divided by its root-sum-of-squares over coils
+            acs = ("call", ("attr", me, "estimate_acs_image"), (S("sample"),), ())
+            rss = ("call", ("attr", TMOD, "root_sum_of_squares"), (acs,), (("dim", coil),))
+            if x != ("call", ("attr", TMOD, "safe_divide"), (acs, _meth(_meth(rss, "unsqueeze", coil), "unsqueeze", cplx)), ()):
+                raise Untranslatable("EstimateSensitivityMapModule.forward: RSS estimate is not acs / rss(acs): %s" % X.show(x)[:140], None, path)
+        elif kind == "UNIT":
+            y = x[1][1] if x[0] == "call" and x[1][0] == "attr" and x[1][2] == "to" else x
+            ok = y[0] == "set" and y[2] == ("tuple", (X.const(Ellipsis), X.const(0))) and y[3] in (X.const(1.0), X.const(1)) and "zeros" in X.show(y[1])
+            if not ok:
+                raise Untranslatable("EstimateSensitivityMapModule.forward: unit map is not zeros with the real part set to one: %s" % X.show(x)[:120], None, path)
+        seen.add(kind)
+    if not {"RSS_ESTIMATE", "UNIT"} <= seen:
+        raise Untranslatable("EstimateSensitivityMapModule.forward: RSS-estimate / unit branches not found (%s)" % sorted(seen), None, path)
     path2 = ctx.src("direct/nn/mri_models.py")
     tree2, _ = pg.parse_file(path2)
-    fn2 = pg.find_def(tree2, "MRIModelEngine.compute_sensitivity_map", path2)
-    t2 = [ast.unparse(s) for s in pg.strip_doc(fn2.body)][-3:]
-    want2 = [
-        "sensitivity_map_norm = " + NORM % ("_complex_dim", "_coil_dim"),
-        "sensitivity_map_norm = sensitivity_map_norm.unsqueeze(self._coil_dim).unsqueeze(self._complex_dim)",
-        "return T.safe_divide(sensitivity_map, sensitivity_map_norm)",
-    ]
-    if t2 != want2:
-        raise Untranslatable("MRIModelEngine.compute_sensitivity_map: normalisation tail outside subset: %s" % t2, fn2.lineno, path2)
-    # safe_divide and root_sum_of_squares themselves (C02's unit re-checks their bodies)
-    path3 = ctx.src("direct/data/transforms.py")
-    tree3, _ = pg.parse_file(path3)
-    sd = [ast.unparse(s) for s in pg.strip_doc(pg.find_def(tree3, "safe_divide", path3).body)]
-    if not sd[0].startswith("data = torch.where(other_tensor == 0, torch.tensor([0.0]") or "input_tensor / other_tensor)" not in sd[0]:
-        raise Untranslatable("safe_divide: body outside subset", None, path3)
-    rs = [ast.unparse(s) for s in pg.strip_doc(pg.find_def(tree3, "root_sum_of_squares", path3).body)]
-    if rs != ["if is_complex_data(data):\n    return torch.sqrt((data ** 2).sum(complex_dim).sum(dim))", "return torch.sqrt((data ** 2).sum(dim))"]:
-        raise Untranslatable("root_sum_of_squares: body outside subset", None, path3)
+    t2, _n = X.run_function(tree2, path2, "MRIModelEngine.compute_sensitivity_map")
+    t2 = X.lift_ife(X.prune_raises(X.drop_do(t2)))
+    for conds, lf in X.leaves(t2):
+        _normalised(lf[1], ("attr", me, "_coil_dim"), ("attr", me, "_complex_dim"), "MRIModelEngine.compute_sensitivity_map", path2)
+    # safe_divide and root_sum_of_squares themselves: C02's translator reads their value trees; run it here as well
+    from . import c02
+
+    c02.generate(ctx)
     out = "From Coq Require Import Reals.\nFrom DV Require Import Model.C09.\n"
     out += "(* structure recognised in the source: every stage is `normalise` of Model/C09.v *)\n"
     out += "Definition rss_estimate_stage := normalise.\nDefinition pipeline_tail_stage := normalise.\nDefinition engine_tail_stage := normalise.\n"
